@@ -83,6 +83,10 @@ checks = [
  chk("C13", "model_checking",
      "GoccLex.tla defines all ASCII spellings of a code point and the layouts between tokens; TLC checks each spelling denotes the code point under Go's rule (LitConv.tla) and emits the spelling table; seeded respelling plans are applied to generated grammar files and the real gocc must produce byte-identical packages and exit status.",
      TRUST + " Grammar texts are tokenised by the harness (texts it rendered itself).", "TLA+ spelling model (GoccLex/LitConv) checked by TLC as plan generator + metamorphic runs of the real gocc", "5/C13"),
+ chk("C17", "exploration",
+     "Conc.tla states the design claim (per-goroutine private state, constant tables; invariant Independent) and enumerates interleavings at gate granularity - exhaustively for small gate counts, by TLC simulation beyond; every schedule is replayed on real generated parsers (plain and -zip) built with the race detector, gates (every Scan and action call) blocking until the schedule allows them; each goroutine's trace must equal its sequential trace, which TLC validates against the driver model; free-running stress with own lexer+parser per goroutine must reproduce sequential results with an empty race report.",
+     "Trusted: Go's race detector for the absence of observed races. Interleavings are controlled at gate granularity only: exploration, not a proof over machine-level schedules.",
+     "TLA+ spec (Conc.tla) enumerating schedules with TLC + schedule replay on the real code under the race detector + trace validation of the sequential traces", "5/C17"),
 ]
 
 claimed = {c["property_id"] for c in checks}
